@@ -52,8 +52,14 @@ pub fn run(line: &str) -> Obs {
     let local = time::PrimitiveDateTime::new(odt.date(), odt.time());
     let r = catch(|| {
         // check() and new() must agree; new() then get_local_time()
+        // the verdict is a function of the arguments: repeated calls must agree with each other
+        let c0 = VouchedTime::check(local, base, voucher);
+        let n0 = VouchedTime::new(local, base, voucher);
         let c = VouchedTime::check(local, base, voucher);
         let n = VouchedTime::new(local, base, voucher);
+        if c0.is_ok() != c.is_ok() || n0.is_ok() != n.is_ok() {
+            return (91, None);
+        }
         match (c, n) {
             (Ok(()), Ok(v)) => {
                 let back = v.get_local_time();
